@@ -371,6 +371,13 @@ def inv(a):
     n = a.shape[0]
     if a.shape != (n, n) or n > 3:
         raise Unsupported("inverse of %s array" % (a.shape,))
+    if INV_MODE[0] == "atoms" and n == 3:
+        key = tuple(vn.canon(a[i, j]) for i in range(3) for j in range(3))
+        out = np.empty((3, 3), dtype=object)
+        for i in range(3):
+            for j in range(3):
+                out[i, j] = vn.atom(("inv3x3", i, j, key))
+        return out
     d = det(a)
     if vn.is_zero(d):
         raise Unsupported("inverse of a singular symbolic matrix")
@@ -387,6 +394,19 @@ CMPOPS = {ast.Eq: operator.eq, ast.NotEq: operator.ne, ast.Lt: operator.lt, ast.
           ast.Gt: operator.gt, ast.GtE: operator.ge}
 
 
+class Poison(object):
+    """value of a statement the interpreter could not evaluate (tolerant mode); any use raises Unsupported"""
+
+    def __init__(self, why):
+        self.why = why
+
+    def __repr__(self):
+        return "Poison(%s)" % self.why
+
+
+INV_MODE = ["explicit"]     # or "atoms": 3x3 inverses become uninterpreted ('inv3x3', i, j, key) atoms
+
+
 class SymObject(object):
     """stand-in for 'self' or simple record objects: attributes in a dict"""
 
@@ -396,7 +416,7 @@ class SymObject(object):
 
 
 class Interp(object):
-    def __init__(self, modules, policy=None, max_depth=8, extra_globals=None):
+    def __init__(self, modules, policy=None, max_depth=8, extra_globals=None, tolerant=False, generic_loops=None):
         """modules: dict alias -> pyfacts.Module ; the first entry named by `home` at call time"""
         self.modules = modules
         self.policy = policy or default_policy
@@ -405,6 +425,9 @@ class Interp(object):
         self.depth = 0
         self.extra = extra_globals or {}
         self.ncalls = 0
+        self.tolerant = tolerant
+        self.generic_loops = generic_loops or {}
+        self.skipped = []
 
     # ---------------------------------------------------------------- calls
     def call(self, modalias, qual, *args, **kwargs):
@@ -473,6 +496,20 @@ class Interp(object):
             self.stmt(m, s, env)
 
     def stmt(self, m, s, env):
+        if self.tolerant and isinstance(s, (ast.Assign, ast.AugAssign, ast.Expr, ast.AnnAssign)):
+            try:
+                return self.stmt0(m, s, env)
+            except Unsupported as ex:
+                self.skipped.append((m.rel, s.lineno, str(ex)))
+                tg = s.targets if isinstance(s, ast.Assign) else ([s.target] if hasattr(s, "target") else [])
+                for t in tg:
+                    for n in ast.walk(t):
+                        if isinstance(n, ast.Name) and isinstance(n.ctx, ast.Store):
+                            env[n.id] = Poison(str(ex))
+                return
+        return self.stmt0(m, s, env)
+
+    def stmt0(self, m, s, env):
         if isinstance(s, ast.Expr):
             if isinstance(s.value, ast.Constant):
                 return
@@ -495,11 +532,25 @@ class Interp(object):
         if isinstance(s, ast.Return):
             raise _Return(self.expr(m, s.value, env) if s.value is not None else None)
         if isinstance(s, ast.If):
-            c = self.truth(m, s.test, env)
+            try:
+                c = self.truth(m, s.test, env)
+            except Unsupported as ex:
+                if not self.tolerant:
+                    raise
+                # undecidable test in tolerant mode: poison everything either branch assigns
+                self.skipped.append((m.rel, s.lineno, str(ex)))
+                for n in ast.walk(s):
+                    if isinstance(n, ast.Name) and isinstance(n.ctx, ast.Store):
+                        env[n.id] = Poison("assigned under undecided test")
+                return
             self.block(m, s.body if c else s.orelse, env)
             return
         if isinstance(s, ast.For):
-            it = self.expr(m, s.iter, env)
+            key = ast.unparse(s.iter)
+            if key in self.generic_loops:
+                it = self.generic_loops[key]
+            else:
+                it = self.expr(m, s.iter, env)
             if isinstance(it, np.ndarray):
                 it = list(it)
             try:
@@ -545,7 +596,12 @@ class Interp(object):
         if isinstance(s, ast.Raise):
             raise Unsupported("reached 'raise' at %s:%d" % (m.rel, s.lineno))
         if isinstance(s, ast.Try):
-            self.block(m, s.body, env)
+            try:
+                self.block(m, s.body, env)
+            except Unsupported as ex:
+                if not self.tolerant:
+                    raise
+                self.skipped.append((m.rel, s.lineno, str(ex)))
             self.block(m, s.orelse, env)
             self.block(m, s.finalbody, env)
             return
